@@ -121,6 +121,12 @@ def judge(case) -> Outcome:
         paths.append((f"pandas/Formula/{output}", lambda o=output: Formula(f).get_model_matrix(df, output=o, context={}, **kw)))
         paths.append((f"pandas/ModelSpec/{output}", lambda o=output: ModelSpec.from_spec(Formula(f), output=o, **kw).get_model_matrix(df, context={})))
         paths.append((f"pandas/materializer/{output}", lambda o=output: PandasMaterializer(df, context={}).get_model_matrix(f, output=o, **kw)))
+    # reuse of the reference's (possibly structured) spec, with and without option overrides
+    rspec = ref.model_spec
+    paths.append(("pandas/spec_reuse/numpy", lambda: rspec.get_model_matrix(df)))
+    for output in ("pandas", "numpy", "sparse"):
+        paths.append((f"pandas/spec_reuse_override/{output}", lambda o=output: rspec.get_model_matrix(df, output=o)))
+        paths.append((f"pandas/model_matrix(spec)/{output}", lambda o=output: model_matrix(rspec, df, output=o)))
     for output in ("pandas", "numpy", "sparse", "narwhals"):
         paths.append((f"narwhals(pandas)/model_matrix/{output}", lambda o=output: model_matrix(f, df, output=o, materializer="narwhals", context={}, **kw)))
     if case["arrow"]:
